@@ -404,7 +404,7 @@ fn gen_live(rng: &mut Rng, rf: u8, long: bool, dense: bool, v: &mut Vec<String>)
         }
     }
     match rng.below(4) { 0 => {}, 1 => ds.reverse(), _ => shuffle(rng, &mut ds) }
-    let maxd = if long { 6 } else if dense { 14 } else { 9 };
+    let maxd = if long { 5 } else if dense { 14 } else { 8 };
     if long {
         // confirm a long run in one go first so that more than one batch of 50 commits lies below the watermark
         let head: Vec<(usize, u8)> = (0..ntx.min(54)).map(|t| (t, q)).collect();
@@ -431,7 +431,7 @@ fn emit_live(rng: &mut Rng, rf: u8, l: &str, sizes: &[usize], ds: &[(usize, u8)]
         let pre = format!("lv {rf} {l} {d}");
         v.push(format!("{pre} ps"));
         for x in 0..3 { v.push(format!("{pre} sv {x}")); }
-        let res: Vec<u64> = if n <= 9 { (0..=n).collect() } else { let mut r: Vec<u64> = vec![w.saturating_sub(1), w, (w + 1).min(n), n]; for _ in 0..4 { r.push(rng.below(n + 1)); } r };
+        let res: Vec<u64> = if n <= 7 { (0..=n).collect() } else { let mut r: Vec<u64> = vec![w.saturating_sub(1), w, (w + 1).min(n), n]; for _ in 0..4 { r.push(rng.below(n + 1)); } r };
         for s in res { v.push(format!("{pre} re {s}")); }
         v.push(format!("{pre} rp 0 - 1000"));
         v.push(format!("{pre} rp {} - {}", rng.below(w + 1), u64::MAX));
@@ -462,8 +462,8 @@ pub fn run(a: &Args, out: &mut Out) {
             gen_queries(&mut rng, rf, &l, thorough, &mut lines);
         }
         // the watermark built live on the running node
-        let ns = if thorough { 40 } else { 8 };
-        for i in 0..ns { gen_live(&mut rng, rf, i % 8 == 7, thorough, &mut lines); }
+        let ns = if thorough { 40 } else { 6 };
+        for i in 0..ns { gen_live(&mut rng, rf, i % 8 == 5, thorough, &mut lines); }
         // the probe of the design: rf 3, counts [2,2],2,0,2
         if rf == 3 { let l = "2:00,2:0,0:1,2:0".to_string(); gen_queries(&mut rng, rf, &l, true, &mut lines); }
     }
